@@ -30,7 +30,7 @@ def main():
     demo_cmd = meta.get("demo_cmd", "")
     # where does the demo live? take the package from the demo_cmd (last ./pkg/ argument)
     pkg = [w for w in demo_cmd.replace("'", " ").split() if w.startswith("./")][-1].strip("/").lstrip("./") if demo_cmd else "node"
-    run_demo = "go test -mod=mod -vet=off -count=1 ./%s/ -run '%s'" % (pkg, "Seeded|seeded")
+    run_demo = "go test -tags verif -mod=mod -vet=off -count=1 ./%s/ -run '%s'" % (pkg, "Seeded|seeded")
     out = {"tier": tier}
     try:
         for d in demo:
